@@ -642,3 +642,67 @@ def streaming_equals_oneshot_ties(cfg):
         if len(bad) > 3:
             break
     yield "accumulated_equals_one_shot", not bad, "; ".join(bad[:2]) or f"{n} pairs of words over {{0, 1/4, 1/2, 1}}^3, threshold {t}"
+
+
+# ================================================================================================ views and exact counts (closed)
+@obligation("C16.views_and_exact_counts", function=FB + ":BitErrorRate.update; " + FB + ":BitErrorRate.forward; " + FL + ":BlockErrorRate.update; " + FL + ":BlockErrorRate.forward; " + FL + ":BlockErrorRate._reshape_into_blocks",
+            configs=lambda tier: [Cfg("closed", "views"), Cfg("closed", "counts")], kind="ground", engine="ground")
+def views_and_exact_counts(cfg):
+    """closed obligations on the real metric classes.
+    views:  the value for a non-contiguous VIEW of the data (transposed, every second column, permuted) equals the value for a
+            contiguous copy of the same numbers - one-shot and accumulated, BER and BLER;
+    counts: for every batch size N = 1..130 (and 1000, 4097) and EVERY number k of bit errors the accumulated BER after one update
+            is the float the one-shot path returns for the same data, and after a second batch it equals (k1+k2)/(N1+N2): the
+            counters hold integers, not rates multiplied back"""
+    from kaira.metrics.signal.ber import BitErrorRate
+    from kaira.metrics.signal.bler import BlockErrorRate
+
+    what = cfg[1]
+    bad = []
+    if what == "views":
+        g = torch.Generator().manual_seed(5)
+        base = torch.randint(0, 2, (6, 12), generator=g).float()
+        other = torch.randint(0, 2, (6, 12), generator=g).float()
+        big_x = torch.randint(0, 2, (6, 24), generator=g).float()
+        big_y = torch.randint(0, 2, (6, 24), generator=g).float()
+        cube_x = torch.randint(0, 2, (4, 3, 6), generator=g).float()
+        cube_y = torch.randint(0, 2, (4, 3, 6), generator=g).float()
+        views = [("transposed", base.t(), other.t()), ("every_second_column", big_x[:, ::2], big_y[:, ::2]), ("permuted_3d", cube_x.permute(1, 0, 2), cube_y.permute(1, 0, 2)),
+                 ("expanded_rows", base[:1].expand(3, 12), other[:1].expand(3, 12))]
+        for nm, xv, yv in views:
+            xc, yc = xv.contiguous(), yv.contiguous()
+            for mname, mk in (("ber", lambda: BitErrorRate()), ("bler3", lambda: BlockErrorRate(block_size=3)), ("bler2", lambda: BlockErrorRate(block_size=2))):
+                try:
+                    a, b = float(mk()(xv, yv)), float(mk()(xc, yc))
+                    m1, m2 = mk(), mk()
+                    m1.update(xv, yv), m2.update(xc, yc)
+                    c, d = float(m1.compute()), float(m2.compute())
+                except Exception as e:
+                    bad.append(f"{mname} {nm}: raised {e!r}")
+                    continue
+                if not (a == b and c == d and a == c):
+                    bad.append(f"{mname} {nm} {tuple(xv.shape)} strides {xv.stride()}: view one-shot {a}, contiguous {b}, view accumulated {c}, contiguous accumulated {d}")
+        yield "view_equals_contiguous_copy", not bad, "; ".join(bad[:3]) or "transposed, strided, permuted and expanded views; BER, BLER(2), BLER(3); one-shot and accumulated"
+        return
+    n = 0
+    for N in list(range(1, 131)) + [1000, 4097]:
+        ks = range(N + 1) if N <= 130 else (0, 1, 2, 251, 499, N - 1, N)
+        for k in ks:
+            x = torch.zeros(1, N)
+            y = torch.zeros(1, N)
+            y[0, :k] = 1.0
+            n += 1
+            one = float(BitErrorRate()(x, y))
+            m = BitErrorRate()
+            m.update(x, y)
+            acc = float(m.compute())
+            m.update(x, torch.zeros(1, N))  # a second, error-free batch of the same size
+            acc2 = float(m.compute())
+            want2 = float(torch.tensor(k, dtype=torch.float64) / (2 * N))
+            if not (acc == one and abs(acc2 - want2) <= 1e-6 * max(want2, 1e-12) + 1e-9):
+                bad.append(f"N={N} k={k}: one-shot {one!r}, accumulated {acc!r}; after a second error-free batch {acc2!r}, expected {want2!r}")
+                if len(bad) > 3:
+                    break
+        if len(bad) > 3:
+            break
+    yield "accumulated_counts_are_exact", not bad, "; ".join(bad[:3]) or f"{n} (N, k) pairs"
